@@ -110,6 +110,10 @@ func (v *validation) contentType() {
 		}
 		if ct != "" && v.route.Consumer == nil {
 			cons, ok := v.route.Consumers[ct]
+			if !ok && v.context.api != nil {
+				// admitted through a wildcard entry of consumes: the route's table holds the literal entries only
+				cons, ok = v.context.api.ConsumersFor([]string{ct})[ct]
+			}
 			if !ok {
 				v.result = append(v.result, errors.New(http.StatusInternalServerError, "no consumer registered for %s", ct))
 			} else {
